@@ -1017,6 +1017,10 @@ class Model:
                         # swap the states
                         other_state, alg_state = alg_state, other_state
 
+                if alg_state is not None and other_state.name() not in all_states:
+                    # E.g. `time`: not a variable of the model, cannot be a canonical variable
+                    return False
+
                 if alg_state is not None:
                     # If either state is a derivative state, and aliasing of those
                     # is not allowed, skip aliasing them
